@@ -21,6 +21,79 @@ fn force_final_flush(c: &mut SeqCase, raw: &RawCase, max_bs: u8, _e: &Exclusions
     c.reopen_params = gen::gen_reopen_params(&raw.extra, c, max_bs, 2);
 }
 
+/// Constructive history for the fragmentation domain: long writes to fresh guest ranges (host
+/// clusters are handed out in write order), discards at the start / end / middle of earlier
+/// writes (holes that touch refcount-slice boundaries), then long writes again, with flushes in
+/// between. All offsets are cluster aligned (cluster >= block size), lengths clamped to the
+/// virtual size.
+fn frag_history(c: &mut SeqCase, raw: &RawCase, max_bs: u8, e: &Exclusions) {
+    use crate::gen::{pick1, weighted1};
+    use crate::pat::Pat;
+    let cs = 1u64 << c.layers[0].cluster_bits();
+    let vsize = c.layers[0].vsize();
+    let n = vsize / cs; // whole clusters only
+    if n >= 16 {
+        let mut ops = Vec::new();
+        let mut written: Vec<(u64, u64)> = Vec::new(); // (first cluster, clusters)
+        let mut holes: Vec<(u64, u64)> = Vec::new();
+        let mut fresh = 0u64;
+        for (i, r) in raw.ops.iter().take(40).enumerate() {
+            let long = |v: u16, max: u64| -> u64 {
+                match weighted1(v, &[30, 40, 30]) {
+                    0 => 1 + pick1(v.wrapping_mul(31), 8) as u64,
+                    1 => 8 + pick1(v.wrapping_mul(31), 60) as u64,
+                    _ => 60 + pick1(v.wrapping_mul(31), max.saturating_sub(60).max(1) as usize) as u64,
+                }
+            };
+            let pat = Pat { id: i as u32 + 1, sparse: r[7] % 4 == 0 };
+            match weighted1(r[0], &[38, 27, 12, 12, 3, 4, 4]) {
+                0 => {
+                    // fresh range
+                    let len = std::cmp::min(long(r[1], 300), n);
+                    if fresh + len > n {
+                        fresh = pick1(r[2], (n - len + 1) as usize) as u64;
+                    }
+                    ops.push(Op::Write { off: fresh * cs, len: (len * cs) as usize, pat });
+                    written.push((fresh, len));
+                    fresh += len + [0, 0, 1, 5][pick1(r[3], 4)];
+                }
+                1 if !written.is_empty() => {
+                    let (w0, wl) = written[pick1(r[1], written.len())];
+                    let len = std::cmp::min(1 + pick1(r[2], 40) as u64, wl);
+                    let start = match weighted1(r[3], &[40, 25, 35]) {
+                        0 => w0 + wl - len,
+                        1 => w0,
+                        _ => w0 + pick1(r[4], (wl - len + 1) as usize) as u64,
+                    };
+                    ops.push(Op::Discard { off: start * cs, len: len * cs });
+                    holes.push((start, len));
+                }
+                2 if !holes.is_empty() => {
+                    // write over a hole, usually longer than the hole
+                    let (h0, hl) = holes[pick1(r[1], holes.len())];
+                    let len = std::cmp::min(hl + pick1(r[2], 50) as u64, n - h0);
+                    ops.push(Op::Write { off: h0 * cs, len: (len * cs) as usize, pat });
+                    written.push((h0, len));
+                }
+                3 => ops.push(Op::Flush),
+                4 => ops.push(Op::Shrink),
+                5 => {
+                    let g = pick1(r[1], n as usize) as u64;
+                    let len = std::cmp::min(1 + pick1(r[2], 4) as u64, n - g);
+                    ops.push(Op::Read { off: g * cs, len: (len * cs) as usize });
+                }
+                _ => {
+                    let g = pick1(r[1], n as usize) as u64;
+                    ops.push(Op::Write { off: g * cs, len: cs as usize, pat });
+                    written.push((g, 1));
+                }
+            }
+        }
+        c.ops = ops;
+    }
+    force_final_flush(c, raw, max_bs, e);
+}
+
 // ------------------------------------------------------------------------------------ C02
 pub struct C02;
 
@@ -96,7 +169,8 @@ impl Prop for C03 {
         seq_assumptions()
     }
     fn domains(&self) -> Vec<Box<dyn Domain>> {
-        vec![Box::new(SeqDomain {
+        vec![
+        Box::new(SeqDomain {
             name: "seq",
             quick: 5_000,
             thorough: 200_000,
@@ -117,6 +191,48 @@ impl Prop for C03 {
             owns: |v| matches!(v.rule, Rule::CheckCorrupt | Rule::CheckUnder | Rule::CheckLeak),
             nontrivial: |r, _| r.stats.checker_runs > 0 && (r.stats.writes + r.stats.discard_freed) > 0,
             tweak: force_final_flush,
+            case_tags: no_tags,
+            extra_classes: no_classes,
+            max_sched: 200,
+            max_extra: 24,
+        }),
+        // fragmentation: hundreds of small clusters, long writes and discards, refcount blocks made
+        // of many 512-byte slices (64..256 clusters each), so that allocations have to be pieced
+        // together from the free tail of one slice and the next slice, retried and given back
+        Box::new(SeqDomain {
+            name: "frag",
+            quick: 12_000,
+            thorough: 400_000,
+            profile: || Profile {
+                max_ops: 40,
+                op_weights: [50, 3, 27, 12, 1, 3, 4],
+                cb_weights: [75, 25, 0, 0, 0, 0],
+                max_cluster_bits: 10,
+                order_weights: Some([0, 1, 1, 2, 10, 26, 60]),
+                max_clusters: 900,
+                vsize_weights: [0, 5, 95, 0],
+                max_write_clusters: 300,
+                max_discard_clusters: 40,
+                depth_weights: [92, 8, 0, 0],
+                formatted_pct: 60,
+                kind_weights: [80, 14, 2, 2, 2],
+                small_rb_slices_pct: 85,
+                sched_pct: 10,
+                ..Profile::default()
+            },
+            cfg: || SeqCfg {
+                sweep: false,
+                check_on_flush: true,
+                reopen_on_flush: false,
+                mapping_check: false,
+                align: false,
+                final_flush: true,
+                release_check: true,
+                ..SeqCfg::default()
+            },
+            owns: |v| matches!(v.rule, Rule::CheckCorrupt | Rule::CheckUnder | Rule::CheckLeak),
+            nontrivial: |r, _| r.stats.checker_runs > 0 && (r.stats.writes + r.stats.discard_freed) > 0,
+            tweak: frag_history,
             case_tags: no_tags,
             extra_classes: no_classes,
             max_sched: 200,
